@@ -141,7 +141,31 @@ def generate_files(repo):
          "Definition readme_msgq : list N := [%s]." % "; ".join(str(macros[n]) for n, c in msgq),
          "(* uplink message codes that bidib_messages.h defines (MSG_* >= 0x80) *)",
          "Definition known_uplink : list N := [%s]." % "; ".join(str(v) for v in sorted({v for k, v in macros.items() if k.startswith("MSG_") and 0x80 <= v <= 0xFF}))]
+    # who takes messages out of the two USER queues: only the public readers may (a message has exactly one consumer). Counted
+    # textually over src/**/*.c (comments stripped): calls of bidib_read_message / bidib_read_error_message anywhere, and pops of
+    # uplink_queue / uplink_error_queue outside those two functions
+    consumers = internal_user_queue_consumers(repo)
+    L.append("(* internal consumers of the user queues: %s *)" % ("; ".join("%s:%d %s" % c for c in consumers) or "none"))
+    L.append("Definition internal_user_queue_consumers : N := %d." % len(consumers))
     return {"DispatchTab.v": "\n".join(L) + "\n"}
+
+def internal_user_queue_consumers(repo):
+    import glob
+    out = []
+    for f in sorted(glob.glob(os.path.join(repo, "src", "*", "*.c"))):
+        txt = open(f, encoding="utf-8", errors="replace").read()
+        txt = re.sub(r"/\*.*?\*/", lambda m: re.sub(r"[^\n]", " ", m.group(0)), txt, flags=re.S)
+        txt = re.sub(r"//[^\n]*", "", txt)
+        # current function by a simple scan: a line that starts at column 0 with an identifier and ends a parameter list with '{'
+        cur = None
+        for ln, line in enumerate(txt.split("\n"), 1):
+            m = re.match(r"^[A-Za-z_][\w\s\*]*?\b(\w+)\s*\([^;]*$", line)
+            if m and not line.startswith((" ", "\t")) and m.group(1) not in ("if", "while", "for", "switch"): cur = m.group(1)
+            for call in re.findall(r"\b(bidib_read_message|bidib_read_error_message)\s*\(", line):
+                if cur != call: out.append((os.path.relpath(f, repo), ln, "%s calls %s" % (cur, call)))
+            if re.search(r"\(\s*uplink_(error_)?queue\s*[,)]", line) and re.search(r"\b(g_queue_pop\w*|bidib_read_message_from_queue)\s*\(", line):
+                if cur not in ("bidib_read_message", "bidib_read_error_message"): out.append((os.path.relpath(f, repo), ln, "%s pops a user queue" % cur))
+    return out
 
 if __name__ == "__main__":
     import sys
